@@ -2,3 +2,4 @@ import PyOak.Props.GenBridge
 import PyOak.Props.C12
 import PyOak.Props.C12Extra
 import PyOak.Props.C12MI
+import PyOak.Props.C12FirstUse
